@@ -54,7 +54,7 @@ Section Reach.
 End Reach.
 
 Definition blockable (fr : frame) : bool :=
-  match fr with FTop [] | FPark _ | FROpark _ | FSBwait | FPIdle => true | _ => false end.
+  match fr with FTop [] | FPark _ | FROpark _ | FSBwait | FPIdle | FY YPpark _ _ _ => true | _ => false end.
 Lemma getf_addlog s l f : getf (addlog s l) f = getf s f. Proof. done. Qed.
 Lemma step_none_cases T s a ac fr rest : s.(actors) !! a = Some ac -> ac.(stack) = fr :: rest -> step T s a = None ->
   blockable fr = true \/ would_panic T s a = true.
